@@ -200,6 +200,10 @@ func TestC11_P_Sizes(t *testing.T) {
 			for i := 0; i < nbig; i++ {
 				sz := rapid.SampledFrom([]int{262144, 262145, 300000, 524289, 786433}).Draw(t, "bigSize")
 				fsroot.Kids[fmt.Sprintf("big-%d.bin", i)] = &fsNode{Kind: fsFile, Data: lcgBytes(sz, byte(i+1), 0)}
+				if rapid.Bool().Draw(t, "hardLinked") {
+					// the same multi-chunk file under a second name (a hard link): both links carry the cumulative size
+					fsroot.Kids[fmt.Sprintf("big-%d-again.bin", i)] = &fsNode{Kind: fsFile, Data: lcgBytes(sz, byte(i+1), 0), LinkTo: fmt.Sprintf("big-%d.bin", i)}
+				}
 			}
 			var l datamodel.Link
 			if werr := withFSTree(fsroot, func(p string) {
